@@ -629,10 +629,13 @@ def _isotope_substitution(compound, source, target, portion=1):
     *portion* is the proportion of source which is substituted for target.
     """
     atoms = compound.atoms
-    if source in atoms:
+    if source in atoms and source is not target:
         mass = compound.mass
         mass_reduction = atoms[source]*portion*(source.mass - target.mass)
-        density = compound.density * (mass - mass_reduction)/mass
+        if compound.density is not None:
+            density = compound.density * (mass - mass_reduction)/mass
+        else:
+            density = None
         atoms[target] = atoms.get(target, 0) + atoms[source]*portion
         if portion == 1:
             del atoms[source]
